@@ -173,6 +173,10 @@ func runEngHistory(t *testing.T, self string, base string, seed int64, index int
 	os.WriteFile(filepath.Join(root, "dawn.toml"), nil, 0644)
 	os.WriteFile(filepath.Join(root, "body.sh"), []byte(engBodySh), 0755)
 	os.MkdirAll(filepath.Join(root, ".home"), 0755)
+	if index < len(engScenarios) {
+		engScenarios[index](r)
+		return r.h
+	}
 	ns := 1 + rng.Intn(3)
 	for i := 0; i < ns; i++ {
 		s := r.addSource(r.p.Pkgs[rng.Intn(len(r.p.Pkgs))])
@@ -387,7 +391,8 @@ func runEngHistory(t *testing.T, self string, base string, seed int64, index int
 				old := t.K
 				for t.K == old {
 					// distinct per target (no two equal integer constants in one file), crossing the pickle width classes
-					t.K = []int{1, 20, 40, 240, 270, 300, 65520, 65550, 65580, 70000}[rng.Intn(10)] + t.ID
+					// (300/556/812 and 65580/65836 share their low bytes: a codec that drops a byte makes such an edit invisible)
+					t.K = []int{1, 20, 40, 240, 270, 300, 556, 812, 65520, 65580, 65836, 70000}[rng.Intn(12)] + t.ID
 				}
 				r.emitProj(fmt.Sprintf("constant of %d: %d -> %d", l, old, t.K))
 			}
